@@ -249,3 +249,73 @@ func VerifNewStreams(protocol int) *streams.IDGenerator { return streams.New(pro
 
 // VerifSetStreamYield installs the callback run before each atomic step of the allocator.
 func VerifSetStreamYield(f func(point int)) { streams.VerifSetYield(f) }
+
+// VerifRefreshRing runs one ring refresh synchronously (what the refresh debouncer would do).
+func VerifRefreshRing(s *Session) error { return refreshRing(s.hostSource) }
+
+// VerifNodeEvent describes a STATUS_CHANGE or TOPOLOGY_CHANGE event.
+type VerifNodeEvent struct {
+	Topology bool   // TOPOLOGY_CHANGE (NEW_NODE / REMOVED_NODE / MOVED_NODE) instead of STATUS_CHANGE
+	Change   string // UP / DOWN / NEW_NODE / REMOVED_NODE
+	Host     net.IP
+	Port     int
+}
+
+// VerifHandleNodeEvents delivers a batch of node events the way the event debouncer would.
+func VerifHandleNodeEvents(s *Session, events []VerifNodeEvent) {
+	frames := make([]frame, 0, len(events))
+	for _, e := range events {
+		if e.Topology {
+			frames = append(frames, &topologyChangeEventFrame{change: e.Change, host: e.Host, port: e.Port})
+		} else {
+			frames = append(frames, &statusChangeEventFrame{change: e.Change, host: e.Host, port: e.Port})
+		}
+	}
+	s.handleNodeEvent(frames)
+}
+
+// VerifRingHost is a read-only view of one host in the ring.
+type VerifRingHost struct {
+	ID      string
+	Connect string
+	Peer    string
+	DC      string
+	Rack    string
+	Up      bool
+	Tokens  []string
+	Ptr     *HostInfo
+}
+
+// VerifRingSnapshot returns the three indexes of the ring: by id, by address, and the ordered list.
+func VerifRingSnapshot(s *Session) (byID map[string]VerifRingHost, byAddr map[string]string, list []string) {
+	r := &s.ring
+	r.mu.RLock()
+	defer r.mu.RUnlock()
+	view := func(h *HostInfo) VerifRingHost {
+		h.mu.RLock()
+		defer h.mu.RUnlock()
+		addr, _ := h.connectAddressLocked()
+		return VerifRingHost{ID: h.hostId, Connect: addr.String(), Peer: h.peer.String(), DC: h.dataCenter, Rack: h.rack, Up: h.state == NodeUp, Tokens: h.tokens, Ptr: h}
+	}
+	byID = make(map[string]VerifRingHost, len(r.hosts))
+	for id, h := range r.hosts {
+		byID[id] = view(h)
+	}
+	byAddr = make(map[string]string, len(r.hostIPToUUID))
+	for a, id := range r.hostIPToUUID {
+		byAddr[a] = id
+	}
+	for _, h := range r.hostList {
+		list = append(list, h.HostID())
+	}
+	return
+}
+
+// VerifHostByIP is the lookup the event handlers use.
+func VerifHostByIP(s *Session, ip string) (id string, found bool, nilHost bool) {
+	h, ok := s.ring.getHostByIP(ip)
+	if h == nil {
+		return "", ok, true
+	}
+	return h.HostID(), ok, false
+}
